@@ -52,7 +52,7 @@ def c16_jobs(tier):
     for n in ([9, 11] if tier == "quick" else [0, 1, 5, 8, 9, 11, 12]):
         js.append(job("ZZ_C16_DateAccept", n=n))
     # thorough: every 4th century plus both ends of the range, the 400-year rule boundaries and 1900-2199
-    windows = [0, 3, 19, 20, 99] if tier == "quick" else sorted(set(list(range(0, 100, 4)) + [1, 2, 3, 15, 16, 17, 19, 21, 97, 98, 99]))
+    windows = [0, 3, 19, 20, 99] if tier == "quick" else sorted(set(list(range(0, 100, 8)) + [1, 3, 15, 16, 19, 20, 99]))
     for c in windows:
         js.append(job("ZZ_C16_DateAccept", n=10, century=c, _split=65536))
         js.append(job("ZZ_C16_DateRoundtrip", century=c, _split=65536))
@@ -118,16 +118,16 @@ def c01_jobs(tier):
             js.append(job("ZZ_C01_Entry", PZ, n=n, indent=indent, ending=(n + indent) % 3))
     js.append(job("ZZ_C01_RangeTemplate", PZ, full=0 if q else 1, open=0))
     js.append(job("ZZ_C01_RangeTemplate", PZ, full=0 if q else 1, open=1))
-    for L in range(1, (4 if q else 5) + 1):
+    for L in range(1, 4 + 1):
         combos = FMT_ROT_QUICK if q else FMT_ROT_ALL
-        if (q and L == 4) or L == 5:
+        if L == 5:
+            continue
+        if q and L == 4:
             combos = [(0, 1)]
         elif L == 4:
             combos = [(0, 1), (1, 2), (2, 3), (1, 0)]
         for f, r in combos:
             js.append(job("ZZ_C01_Structure", PZ, L=L, faults=1, fmt=f, rot=r))
-    if not q:
-        js.append(job("ZZ_C01_Structure", PZ, L=5, faults=0, fmt=1, rot=3))
     # summary lines vs the specification's blank characters (tab, Unicode Zs): arbitrary bytes
     for n in range(1, (5 if q else 7) + 1):
         for kind in (0, 1):
@@ -146,7 +146,7 @@ def c10_jobs(tier):
     for L in range(1, (4 if q else 5) + 1):
         combos = FMT_ROT_QUICK if q else FMT_ROT_ALL
         if L >= 4:
-            combos = [(0, 1)] if q else FMT_ROT_QUICK
+            combos = [(0, 1)] if (q or L == 5) else FMT_ROT_QUICK
         for f, r in combos:
             js.append(job("ZZ_C10_ErrPos", U, L=L, fmt=f, rot=r, w=1 if L >= 4 else 2))
     js.append(job("ZZ_C10_ErrPos", U, L=3, fmt=1, rot=2, w=3))
@@ -159,12 +159,10 @@ def c10_jobs(tier):
 def c09_jobs(tier):
     js = []
     q = tier == "quick"
-    for L in range(1, (3 if q else 4) + 1):
+    for L in range(1, 3 + 1):
         combos = FMT_ROT_QUICK if q else FMT_ROT_ALL
-        if L == 3 and q:
-            combos = [(1, 2)]
-        if L == 4:
-            combos = [(1, 3)]
+        if L == 3:
+            combos = [(1, 2)] if q else [(1, 2), (0, 0), (2, 3), (0, 1)]
         for f, r in combos:
             js.append(job("ZZ_C09_PrintRoundtrip", U, L=L, fmt=f, rot=r))
     js += [job("ZZ_C16_TimeRoundtrip"), job("ZZ_C16_DurationRoundtrip"), job("ZZ_C16_DateRoundtrip", century=20, _split=65536)]
@@ -181,21 +179,19 @@ def c09_jobs(tier):
 # ---------------------------------------------------------------- C07
 def c07_jobs(tier):
     js = []
-    maxn = 4 if tier == "quick" else 5
-    for n in range(0, maxn + 1):
+    for n in range(0, 4 + 1):
         for w in range(1, min(n + 2, 4) + 1):
             js.append(job("ZZ_C07_ParEquiv", E, n=n, w=w))
     if tier == "thorough":
-        for w in [5, 6]:
-            js.append(job("ZZ_C07_ParEquiv", E, n=4, w=w))
+        js += [job("ZZ_C07_ParEquiv", E, n=5, w=1), job("ZZ_C07_ParEquiv", E, n=5, w=2), job("ZZ_C07_ParEquiv", E, n=4, w=5)]
     # longer texts built from lines (blank / short / long / error lines x LF / CRLF): chunk boundaries at every
     # position relative to blank lines and CR LF pairs (added after finding F9)
     lines = [(6, 2, 0, 0), (5, 3, 1, 0), (5, 2, 1, 1)] if tier == "quick" else \
-        [(6, 2, 0, 0), (6, 2, 1, 1), (5, 3, 1, 0), (5, 3, 0, 1), (4, 4, 1, 1), (7, 2, 0, 0), (6, 3, 0, 0)]
+        [(6, 2, 0, 0), (6, 2, 1, 1), (5, 3, 1, 0), (5, 3, 0, 1), (4, 4, 1, 1), (7, 2, 0, 0)]
     for L, w, op, al in lines:
         js.append(job("ZZ_C07_Lines", E, L=L, w=w, open=op, alpha=al))
     # the real record parser on generated documents (valid and invalid)
-    for L, w in ([(2, 2), (3, 2), (3, 3)] if tier == "quick" else [(2, 2), (3, 2), (3, 3), (4, 2), (4, 3), (4, 4)]):
+    for L, w in ([(2, 2), (3, 2), (3, 3)] if tier == "quick" else [(2, 2), (3, 2), (3, 3), (4, 2)]):
         js.append(job("ZZ_C07_RealParse", U, L=L, fmt=L % 3, rot=w % 4, faults=1, w=w))
     return js
 
@@ -206,7 +202,7 @@ S = K + "/service"
 
 def c02_jobs(tier):
     js = [job("ZZ_C02_EvalNow", S), job("ZZ_C02_EvalNowMany", S)]
-    shapes = [(1, 1), (1, 2), (2, 1)] if tier == "quick" else [(1, 1), (1, 2), (2, 1), (1, 3), (3, 1), (2, 2)]
+    shapes = [(1, 1), (1, 2), (2, 1)] if tier == "quick" else [(1, 1), (1, 2), (2, 1), (2, 2)]
     for nrec, nent in shapes:
         js.append(job("ZZ_C02_Eval", S, nrec=nrec, nent=nent))
     for L in range(1, (3 if tier == "quick" else 4) + 1):
@@ -226,8 +222,8 @@ def c15_jobs(tier):
         pat_windows = [20]
     else:
         # a full 400-year Gregorian cycle at each end of the range and around 2000 (century windows)
-        windows = [(c * 100, 100) for c in [0, 1, 2, 3, 20, 96, 97, 98, 99]]
-        pat_windows = [0, 99]
+        windows = [(c * 100, 100) for c in [0, 3, 20, 96, 99]]
+        pat_windows = [0]
     for frm, span in windows:
         js.append(job("ZZ_C15_DateFacts", P, **{"from": frm, "span": span, "_split": 65536}))
         js.append(job("ZZ_C15_Week", P, **{"from": frm, "span": span, "_split": 65536}))
@@ -246,7 +242,7 @@ C = K + "/app/cli"
 
 def c17_jobs(tier):
     js = []
-    days = [0] if tier == "quick" else [0, 2, 3]
+    days = [0] if tier == "quick" else [2, 3]
     rounds = [0, 1, 7] if tier == "quick" else list(range(8))
     for d in days:
         for r in rounds:
@@ -287,16 +283,15 @@ def mut(h, L, f, r, **kw):
 def c03_jobs(tier):
     q = tier == "quick"
     js = []
-    for L in ([1, 2] if q else [1, 2, 3]):
-        for f, r in (FMT_ROT_QUICK if L < 3 else [(2, 3)]):
+    for L in [1, 2]:
+        for f, r in (FMT_ROT_QUICK if q else FMT_ROT_QUICK + [(1, 3), (2, 0)]):
             js.append(mut("ZZ_Mut_Track", L, f, r))
     js += [mut("ZZ_Mut_Create", 2, 1, 0), job("ZZ_Mut_Layouts", C)]
     js += [mut("ZZ_Mut_Stop", 2, 2, 3, sw=0), mut("ZZ_Mut_Stop", 3, 0, 1, sw=0, nd=2), mut("ZZ_Mut_Stop", 3, 1, 2, sw=1, nd=2)]
     js += [mut("ZZ_Mut_Pause", 2, 0, 0, ticks=1, extend=0)]
     if not q:
         js += [mut("ZZ_Mut_Start", 2, f, r) for f, r in FMT_ROT_QUICK]
-        js += [mut("ZZ_Mut_Pause", 3, 2, 2, ticks=1, extend=1, tab=1), mut("ZZ_Mut_Create", 3, 0, 2), mut("ZZ_Mut_Create", 2, 2, 3),
-               mut("ZZ_Mut_Stop", 3, 2, 0, sw=0), mut("ZZ_Mut_Stop", 3, 0, 3, sw=1)]
+        js += [mut("ZZ_Mut_Pause", 3, 2, 2, ticks=1, extend=1, tab=1, nd=2), mut("ZZ_Mut_Create", 2, 2, 3)]
     for L in range(1, (3 if q else 4) + 1):
         js.append(job("ZZ_C08_NoopReconcile", U, L=L, fmt=L % 3, rot=L % 4))
     return js
@@ -310,9 +305,7 @@ def c04_jobs(tier):
           mut("ZZ_Mut_Pause", 3, 0, 0, ticks=1, extend=1, nd=2),
           mut("ZZ_Mut_History", 2, 1, 1, steps=2, nd=2), mut("ZZ_Mut_History", 1, 0, 0, steps=3), job("ZZ_Mut_Layouts", C)]
     if not q:
-        js += [mut("ZZ_Mut_Pause", 3, 2, 2, ticks=1, extend=1, tab=1), mut("ZZ_Mut_Pause", 2, 0, 1, ticks=3, extend=0),
-               mut("ZZ_Mut_History", 2, 0, 3, steps=3), mut("ZZ_Mut_History", 1, 2, 0, steps=4),
-               mut("ZZ_Mut_Create", 3, 1, 2), mut("ZZ_Mut_Start", 2, 1, 3), mut("ZZ_Mut_Stop", 3, 0, 2, sw=0), mut("ZZ_Mut_Stop", 3, 1, 3, sw=1)]
+        js += [mut("ZZ_Mut_Pause", 2, 0, 1, ticks=3, extend=0), mut("ZZ_Mut_History", 1, 2, 0, steps=4), mut("ZZ_Mut_Start", 2, 1, 3, nd=3)]
     return js
 
 
@@ -327,7 +320,7 @@ def c05_jobs(tier):
     js += [mut("ZZ_Mut_Track", 2, 0, 0), mut("ZZ_Mut_Stop", 2, 1, 1, sw=0), mut("ZZ_Mut_Stop", 3, 2, 2, sw=1, nd=2),
            mut("ZZ_Mut_Pause", 2, 2, 3, ticks=1, extend=0), mut("ZZ_Mut_Create", 2, 1, 2)]
     if not q:
-        js += [mut("ZZ_Mut_Start", 2, 1, 3), mut("ZZ_Mut_Track", 2, 2, 2), mut("ZZ_Mut_History", 2, 2, 2, steps=3)]
+        js += [mut("ZZ_Mut_Start", 2, 1, 3, nd=3), mut("ZZ_Mut_Track", 2, 2, 2)]
     return js
 
 
@@ -338,11 +331,11 @@ def c11_jobs(tier):
         js.append(mut("ZZ_Mut_Track", 2, f, r))
     js += [mut("ZZ_Mut_Create", 2, 0, 1), mut("ZZ_Mut_Start", 2, 1, 0 if q else 3, nd=3 if q else 6)]
     if not q:
-        js += [mut("ZZ_Mut_Track", 3, 1, 3), mut("ZZ_Mut_Start", 2, 2, 1), mut("ZZ_Mut_Create", 3, 2, 0)]
+        js += [mut("ZZ_Mut_Start", 2, 2, 1, nd=3)]
     # notation of generated values: n other records x command (0 start, 1 start with explicit values, 2 stop, 3 create, 4 track)
     for n in ([0, 1] if q else [0, 1, 2]):
         for cmd in range(5):
-            if n == 2 and cmd in (1, 4):
+            if n == 2 and cmd in (1, 2, 4):
                 continue
             js.append(job("ZZ_C11_Notation", C, n=n, cmd=cmd))
     return js
@@ -352,7 +345,7 @@ def c11_jobs(tier):
 def c12_jobs(tier):
     js = []
     for agg in range(5):
-        for n in ([1, 2, 3] if tier == "quick" or agg not in (1, 2) else [1, 2, 3, 4]):
+        for n in ([1, 2, 3] if tier == "quick" or agg != 1 else [1, 2, 3, 4]):
             js.append(job("ZZ_C12_Partition", C, n=n, agg=agg))
     js.append(job("ZZ_C15_Hashes", P))
     js.append(job("ZZ_C12_ReportVsTotal", C))
@@ -379,7 +372,7 @@ def c13_jobs(tier):
 
 def c14_jobs(tier):
     q = tier == "quick"
-    js = [job("ZZ_C14_TagScan", n=n) for n in range(0, (6 if q else 7) + 1)]
+    js = [job("ZZ_C14_TagScan", n=n) for n in range(0, 6 + 1)]
     js += [job("ZZ_C14_TagTotals", S, n=1, e=2, mode=1), job("ZZ_C14_TagTotals", S, n=2, e=1, mode=1)]
     # the same bytes as a two-line summary split at every position (values must be closed on their own line)
     js += [job("ZZ_C14_TagScan", n=n, lines=2) for n in ([4, 5] if q else [4, 5, 6])]
@@ -427,7 +420,7 @@ CHECKS = {
         "jobs": c16_jobs,
         "bounds": {
             "quick": "time literals: every byte string of length 0..9; durations: every byte string of length 0..6 plus all values -100000..100000 min x notation flags; dates: every 10-byte string with years in century windows {00,03,19,20,99} and all strings of length 9 and 11; all (hour,minute,shift,clock) times x durations -3000..3000; all time pairs",
-            "thorough": "as quick with time strings up to 10 bytes, duration strings up to 8 bytes, 33 century windows (every fourth century, 00-03, 15-17, 19-21, 96-99); all 100 windows would take about an hour and are not registered",
+            "thorough": "as quick with time strings up to 10 bytes, duration strings up to 8 bytes, 19 century windows (every eighth century, 01, 03, 15, 16, 19, 20, 99); all 100 windows would take about an hour and are not registered",
         },
         "outside": "longer strings; duration numbers beyond 7 digits (panic-freedom of those is C06)",
         "stubs": [MODELS["regexp"], MODELS["fmt"], MODELS["utf8"], MODELS["bytealg"], MODELS["tabulate"]],
@@ -454,7 +447,7 @@ CHECKS = {
         "jobs": c15_jobs,
         "bounds": {
             "quick": "every date of the decade windows 0000-0009, 0395-0404, 1895-1904, 1996-2005, 9990-9999 (weekday, ISO week/week-year, quarter, +-1 day, week/month/quarter/year periods and predecessors); hash packing for all field values 0..9999/1..12/1..31/1..53; every pattern string of length 0..7 and 9 with the year in 2000-2099",
-            "thorough": "century windows 00-03, 20, 96-99 (a full 400-year Gregorian cycle at both ends of the range, and 2000-2099: 900 of the 10000 years, every date in them); pattern strings with years in 0000-0099, 9900-9999 (2000-2099 in quick)",
+            "thorough": "century windows 00, 03, 20, 96, 99 (every date of 500 of the 10000 years, incl. both ends of the range and both kinds of century year); pattern strings with years in 0000-0099 (2000-2099 in quick); a window takes 2-3 minutes, all 100 are not registered",
         },
         "outside": "the first two weeks of year 0000 and the last week of 9999 for week periods, predecessors of the first month/quarter/year of 0000 (klog panics there: not representable, excluded like in C13's quantifier); pattern strings longer than 9 bytes",
         "stubs": [MODELS["regexp"], MODELS["fmt"], MODELS["tabulate"], "math.Ceil / math.Log2 on concrete floats (int->float of a symbolic month is case-split)"],
@@ -465,7 +458,7 @@ CHECKS = {
         "jobs": c17_jobs,
         "bounds": {
             "quick": "clock at every minute (hour, minute symbolic) of 2021-06-15; roundings {none,5,60}; start x {default,--today,--yesterday,--tomorrow} x {records for yesterday/today/tomorrow, empty file}; stop x 5 layouts (open range today / yesterday only / yesterday with a record today / both / none) with every start time; total --now at every minute for one record and for two records (yesterday's and today's, either order) with an open range each",
-            "thorough": "3 days (ordinary, year end, leap day), all 8 roundings",
+            "thorough": "year end and leap day, all 8 roundings",
         },
         "outside": "explicit --time / --date values (covered by C04's command model); clocks outside UTC; switch (= stop + start)",
         "stubs": [MODELS["regexp"], MODELS["fmt"], MODELS["tabulate"], "app.Context: harness implementation (zzContext) holding the file as text and re-parsing it with the real parser, mirroring app.context.ReconcileFile"],
@@ -475,7 +468,7 @@ CHECKS = {
         "jobs": c01_jobs,
         "bounds": {
             "quick": "headline: date + every tail of 0..5 bytes; entry line: every indentation style + every tail of 1..6 bytes (n>4: one style per length); range / open-range templates (time shapes x dash spacings x summaries, digits symbolic); line-structure: every kind sequence of 1..4 lines incl. rule-violating continuations (digits and summary bytes symbolic; LF, CRLF, missing final newline; rotating indentation styles); record-summary line and entry-summary continuation line of 1..5 arbitrary bytes (valid UTF-8 asserted two-sided against the blank-character class tab + Unicode Zs); literals: slice of C16",
-            "thorough": "summary lines of 1..7 arbitrary bytes, headline tails to 6 bytes, entry tails to 7 bytes, full time-shape templates, structures of up to 3 lines in all 12 line-ending x indentation-rotation combinations, of 4 lines in 4 and of 5 lines (with and without faults) in one combination each",
+            "thorough": "summary lines of 1..7 arbitrary bytes, headline tails to 6 bytes, entry tails to 7 bytes, full time-shape templates, structures of up to 3 lines in all 12 line-ending x indentation-rotation combinations and of 4 lines in 4 (5-line structures take 12 minutes per combination and are not registered)",
         },
         "outside": "documents longer than the line bound; arbitrary bytes beyond the tail bounds; non-ASCII bytes in headline tails and value parts (asserted neither way); tab between value and summary, blanks inside the should-total parentheses, trailing blanks (asserted neither way, see DESIGN appendix); invalid UTF-8 in summaries (file encoding MUST be UTF-8)",
         "stubs": [MODELS["regexp"], MODELS["fmt"], MODELS["utf8"], MODELS["bytealg"], MODELS["builder"]],
@@ -486,7 +479,7 @@ CHECKS = {
         "jobs": c10_jobs,
         "bounds": {
             "quick": "every generated document of 1..4 lines with one injected rule violation (10 fault kinds at every reachable position), parsed serially and with 2-3 workers in every delivery order; terminal rendering compared byte for byte with a rendering built from the reported line / position / length, JSON rendering read back from the emitted text; a malformed entry line followed by 0-4 ARBITRARY bytes through both renderings",
-            "thorough": "5-line documents, all line-ending x indentation combinations; 6 arbitrary bytes",
+            "thorough": "5-line documents in one and 4-line documents in three formatting combinations, 1-3 lines in all 12; 6 arbitrary bytes",
         },
         "outside": "longer documents; several independent faults per document (only ordering and per-error validity are asserted for follow-up errors)",
         "stubs": [MODELS["regexp"], MODELS["fmt"], MODELS["utf8"], MODELS["builder"], MODELS["json"]],
@@ -496,7 +489,7 @@ CHECKS = {
         "jobs": c09_jobs,
         "bounds": {
             "quick": "every conforming generated document of 1..3 lines (all kind sequences; 2- to 4-space and tab indentation, LF/CRLF, missing final newline, `/` dates, 12-hour and shifted times, dash spacing, `???` placeholders, explicit plus, summaries with trailing blanks and entry-looking text, extra-indented continuation lines); literal round trips for all times, durations -100000..100000, dates of century 20; whole-pipeline value round trip of one record: range (every hour, minutes 00/07/59, day shifts, dash spacing), open range (12/24-hour, 1-3 placeholder characters), signed two-digit duration, record + entry summary of 1-3 ARBITRARY bytes (incl. CR, NUL, invalid UTF-8), date with every year of centuries 00, 09, 20 in both separators with optional signed should-total",
-            "thorough": "documents of 4 lines; all formatting combinations; summaries of up to 5 arbitrary bytes; centuries 00, 05, 09, 10, 19, 20, 99",
+            "thorough": "all 12 formatting combinations for 1-2 lines and 4 for 3 lines; summaries of up to 5 arbitrary bytes; centuries 00, 05, 09, 10, 19, 20, 99 (4-line documents take 10 minutes per combination and are not registered)",
         },
         "outside": "longer documents; longer summaries; finding F8 (a summary line ending in a carriage return) is asserted under its own id and listed in known_findings.json",
         "stubs": [MODELS["regexp"], MODELS["fmt"], MODELS["utf8"], MODELS["builder"]],
@@ -526,14 +519,14 @@ CHECKS = {
     "C11": {
         "jobs": c11_jobs, "asserts": A_C11,
         "bounds": {"quick": "style election over 2-3 records with every combination of {4 spaces, 2 spaces, tab} x {LF, CRLF} incl. all ties (unanimous style used; otherwise a style some record uses), run twice under every map iteration order; track/create/start on every conforming 2-line file with 3 formatting combinations; notation of generated values (date separator, 12/24-hour clock, dash spacing, placeholder length) for start / start with explicit --time and --date / stop / create / track on files of 0-1 other records plus an optional target record, each record exhibiting every combination of the four notation choices through a duration, range or open-range entry, under no / slash+12h / dash+24h configured preference",
-                   "thorough": "all 12 line-ending x indentation-rotation combinations, 3-line files; notation with 2 other records (54756 files per command)"},
+                   "thorough": "all 12 line-ending x indentation-rotation combinations; notation with 2 other records for start and create (tens of thousands of files per command)"},
         "outside": "notation when the records that exhibit a choice disagree (only determinism is asserted there: the property names no winner); a record whose own entries disagree; times other than 13:05",
         "stubs": MUT_STUBS, "assumptions": MUT_ASSUME,
     },
     "C12": {
         "jobs": c12_jobs,
         "bounds": {"quick": "1-3 records on 8 dates around year / ISO-week-year / leap-day / month boundaries (every choice with repetition, any order; the second record in either date notation), totals symbolic in [-100000,100000], all 5 aggregations, --fill over the spanned range, klog today split; print --with-totals on every conforming generated document of 1-2 lines (prefix column removed = plain print, record line carries the record total, one value per entry, entry values add up); bucket hashes for all field values; week buckets on 1996-2005",
-                   "thorough": "4 records for the week and month aggregations; week buckets on four decade windows; print --with-totals on 3-line documents"},
+                   "thorough": "4 records for the week aggregation; week buckets on four decade windows; print --with-totals on 3-line documents"},
         "outside": "the rendered table text (alignment is C18); --decimal / --diff cell formatting; other dates than the boundary set for the composition (the bucket rule itself is proven for all dates in C15)",
         "stubs": [MODELS["sort"], MODELS["tabulate"], MODELS["fmt"]],
         "assumptions": COMMON_ASSUME + ["reference periods of the 8 boundary dates (ISO week-year and week) are written down in the harness from the calendar"],
@@ -549,7 +542,7 @@ CHECKS = {
     "C14": {
         "jobs": c14_jobs,
         "bounds": {"quick": "every ASCII one-line summary of 0..6 bytes, and every 4-5 byte summary split into two lines at every position, against a reference tag scanner written from the specification; tag totals for record/entry tag combinations of {#x, #y, #x=v} on 1x2 and 2x1 records x entries with symbolic durations",
-                   "thorough": "summaries up to 7 bytes; 2x2 and 1x3 shapes"},
+                   "thorough": "two-line split of 6-byte summaries; 2x2 and 1x3 shapes (7-byte summaries: 1.7 million paths, 17 minutes, ran clean once but are not registered)"},
         "outside": "non-ASCII letters in tag names (the Unicode letter class is only reached with concrete runes); summaries longer than the bound; summaries of more than two lines",
         "stubs": [MODELS["regexp"], MODELS["sort"]],
         "assumptions": COMMON_ASSUME,
@@ -583,7 +576,7 @@ CHECKS = {
         "jobs": c07_jobs,
         "bounds": {
             "quick": "every byte string of length 0..4 x worker counts 1..min(n+2,4) x every order in which the workers can deliver their results (all w! orders); texts of 5-6 lines, each line one of {empty, `a`, `aaa` | `!aa`} x {LF, CRLF}, optionally an unterminated last line, with 2-3 workers (every chunk boundary position relative to blank lines and CR LF pairs in texts up to 31 bytes)",
-            "thorough": "every byte string of length 0..5 x workers 1..4 x all delivery orders; length 4 with 5 and 6 workers (120 / 720 orders); line-built texts of up to 7 lines with 2, 6 lines with 3 and 4 lines with 4 workers",
+            "thorough": "as quick plus every byte string of length 5 with 1-2 workers and of length 4 with 5 workers (120 orders); line-built texts of up to 7 lines with 2, 5 lines with 3 and 4 lines with 4 workers",
         },
         "outside": "longer texts and other line contents than those listed (finding F9 needed 13 bytes and was outside the arbitrary-bytes bound until the line-built texts were added); interleavings finer than result delivery (workers share only immutable strings and the result channel: assumed, not shown); the real record parser as ParseOne (the engine is generic: a deterministic stub ParseOne that echoes the block and flags lines starting with `!` is used; composition with the real parse is covered by C01/C10 serial-vs-parallel jobs)",
         "stubs": [MODELS["utf8"], MODELS["bytealg"], "goroutines as coroutines under the engine scheduler; channel receive chooses nondeterministically among pending senders (all orders explored); sync.WaitGroup modelled; math.Ceil on concrete floats"],
